@@ -207,6 +207,29 @@ def main():
         batch.trace(f"E/dsge/{lo},{hi}", evs)
         stats["events"] += len(evs)
 
+    # (T) the gene-backed source that dynamic SGE hands to metahandlers (genes of any size, as mutation writes them)
+    if hasattr(dsge, "DynamicSGESource"):
+        big = [0, 1, 511, 1023, 1024, 1025, 2047, 2 ** 31, MAXS, MAXS - 1, 10 ** 12 + 7]
+        for gi, gene in enumerate(big):
+            evs = []
+            for (lo, hi) in INT_BOUNDS:
+                def mk():
+                    gt = dsge.Genotype(NativeRandomSource(1), {int: [gene] * 4, float: [gene] * 4, bool: [gene] * 4})
+                    return dsge.DynamicSGESource(dsge.DynamicSGEDecider(gt, GRAMMAR, max_depth=5))
+                s = mk()
+                r, exc = call(lambda: s.randint(lo, hi))
+                evs.append(ev_int("DynamicSGESource", "randint", lo, hi, r, exc))
+            for (lo, hi) in [(0.0, 1.0), (-100.0, 100.0), (2.5, 2.5), (9.0, 10.0), (-1e9, 1e9)]:
+                s = mk()
+                r, exc = call(lambda: s.random_float(lo, hi))
+                evs.append(ev_int("DynamicSGESource", "random_float", lo, hi, r, exc, ty=tyname(r)))
+            for lst in LISTS:
+                s = mk()
+                r, exc = call(lambda: s.choice(list(lst)))
+                evs.append(ev_choice("DynamicSGESource", lst, r, exc))
+            batch.trace(f"T/DynamicSGESource/{gi}", evs)
+            stats["events"] += len(evs)
+
     # (T) gene-backed sources: raw randint for every gene list x bounds, derived primitives on top
     glists = gene_lists(R, a.tier)
     for cname, mk in (("GEListWrapper", lambda dna: GEList(list(dna))),
